@@ -24,6 +24,9 @@ func RunC06(c *Ctx, r *Report) {
 	r.Func(c.FuncName(em))
 	c.protectTotality(r, prefix)
 	c.registryLengthRules(r, prefix)
+	// the Encrypted payload is appended to a list built from nothing: were the old list's storage kept, the SK
+	// payload would overwrite the first inner payload of a list the caller still uses for the next message
+	c.protectListFreshRule(r, prefix+"protect.list-rebuilt-from-nil", em)
 	f := c.NewFA(em)
 	rule := prefix + "protect-order"
 	r.Rule(rule, "encryptMsg: inner = Payloads.Encode() of the original list; ciphertext = encryptPayload(inner); Reset and BuildEncrypted(next, ciphertext|Zero(L)) dominate the ikeMsg.Encode() whose result minus its last L octets is MAC'd; the MAC is copied into sk.EncryptedData[len-L:] of the payload BuildEncrypted returned; after that Encode nothing but the checksum copy changes the message", 6)
